@@ -502,6 +502,24 @@ func genC11(r *Rng, tier string, i int) map[string]any {
 		cd.rows[i], cd.rows[j] = cd.rows[j], cd.rows[i]
 	}
 	drop := map[string]bool{}
+	if cal := f.tables["calendar.txt"]; cal != nil && len(cal.rows) > 0 && r.P(1, 5) {
+		// a service id that occurs in two calendar.txt rows (identical, or with other flags and range): still one service
+		row := append([]string{}, cal.rows[r.Intn(len(cal.rows))]...)
+		if r.Bool() {
+			for ci, h := range cal.header {
+				switch h {
+				case "monday", "tuesday", "wednesday", "thursday", "friday", "saturday", "sunday":
+					row[ci] = r.Pick([]string{"0", "1"})
+				case "start_date":
+					row[ci] = "20230105"
+				case "end_date":
+					row[ci] = "20230910"
+				}
+			}
+		}
+		pos := r.Intn(len(cal.rows) + 1)
+		cal.rows = append(cal.rows[:pos], append([][]string{row}, cal.rows[pos:]...)...)
+	}
 	switch r.Intn(5) {
 	case 0:
 		drop["calendar.txt"] = true
@@ -530,7 +548,7 @@ func init() {
 	}
 	props["C11"] = func() Prop {
 		return &staticProp{id: "C11", nQuick: 2000, nThor: 80000, oracle: oracleC11, gen: genC11,
-			rule: "feeds with calendar-only, calendar_dates-only and combined services, calendar ranges of several shapes (one day, end before start, across a year end and a leap day, ending on days on which a generated zone changes its offset), exception rows before / inside / after the calendar range (also on offset-change days) in shuffled order, unknown exception types, invalid dates, one third of the cases with messy rows; calendar.txt or calendar_dates.txt absent in 2 of 5 cases; agency zones from {New_York, London, Kolkata, UTC, Lord_Howe, unknown}; distinct = distinct input JSON; non-trivial = at least two services"}
+			rule: "feeds with calendar-only, calendar_dates-only and combined services, calendar ranges of several shapes (one day, end before start, across a year end and a leap day, ending on days on which a generated zone changes its offset), exception rows before / inside / after the calendar range (also on offset-change days) in shuffled order, unknown exception types, invalid dates, a service id in two calendar.txt rows (one case in five), one third of the cases with messy rows; calendar.txt or calendar_dates.txt absent in 2 of 5 cases; agency zones from {New_York, London, Kolkata, UTC, Lord_Howe, unknown}; distinct = distinct input JSON; non-trivial = at least two services"}
 	}
 }
 
